@@ -335,6 +335,7 @@ def run(ctx):
     ctx.do(C15.rule_one_writer_one_reader, rule_id="C10.printer-complete")
     ctx.do(rule_path_step_kinds)
     ctx.do(rule_path_text_tokenised)
+    ctx.do(rule_string_only_operators)
     # building an expression leaves its operands as they were (an operand can be used in several expressions)
     from .pitfalls import rule_no_alias_then_mutate
 
@@ -1129,4 +1130,50 @@ def rule_path_text_tokenised(ctx):
               "path text is neither cut by string methods nor by a quote-aware regular expression: the rule lost its subject",
               file="stix2/patterns.py", line=prog.func("stix2.patterns::ObjectPath.make_object_path").node.lineno,
               function="ObjectPath.make_object_path", expected="a tokeniser", found="none")
+    run.floor(R, 1)
+
+
+def rule_string_only_operators(ctx):
+    """Some comparison operators take ONLY a string literal in the grammar (the rule contexts whose single literal token is
+    StringLiteral: LIKE, MATCHES, ISSUBSET, ISSUPERSET).  The model classes accept a plain Python value for the right-hand
+    side and guess its constant kind (make_constant tries a timestamp first); for these operators a `str` must become a
+    StringConstant whatever it looks like, or the printed text ("file:name LIKE t'2020-01-01T00:00:00Z'") is no pattern."""
+    run = ctx.run
+    prog = ctx.prog
+    R = "C10.operand-kinds"
+    ops = set()
+    for ver in ("2.0", "2.1"):
+        for rule, toks in grammar(ver).get("tokens", {}).items():
+            lits = {t for t in toks if t.endswith("Literal")}
+            if rule.startswith("PropTest") and lits == {"StringLiteral"}:
+                ops |= {t for t in toks if t.isupper() and t != "NOT"}
+    if len(ops) < 4:
+        raise AnalysisError("grammar oracle: fewer than four string-only operators found (%s)" % sorted(ops))
+    fi = prog.cls(PAT + "::_ComparisonExpression").methods.get("__init__")
+    if fi is None:
+        raise AnalysisError("anchor missing: _ComparisonExpression.__init__")
+    rel = fi.module.relpath
+    rhs = fi.params[3] if len(fi.params) > 3 else "rhs"
+    guesses = [c for c in body_walk(fi.node) if isinstance(c, ast.Call) and call_simple_name(c) == "make_constant" and c.args and norm(c.args[0]) == rhs]
+    if not guesses:
+        run.info(R, key(rel, fi.qualname, "string-only-operators"), "the right-hand side is no longer guessed by make_constant: not judged")
+        return
+    covered = set()
+    for a_ in body_walk(fi.node):
+        if not (isinstance(a_, ast.Assign) and isinstance(a_.value, ast.Call) and call_simple_name(a_.value) == "StringConstant"
+                and a_.value.args and norm(a_.value.args[0]) == rhs):
+            continue
+        tests = [t for t, pol, _ in guard_chain(a_) if pol]
+        is_str = any(isinstance(x, ast.Call) and call_simple_name(x) == "isinstance" and norm(x.args[0]) == rhs and "str" in norm(x.args[1])
+                     for t in tests for x in ast.walk(t))
+        if is_str:
+            covered |= {c_.value for t in tests for c_ in ast.walk(t) if isinstance(c_, ast.Constant) and isinstance(c_.value, str)}
+    # the names the model uses for these operators are the grammar's token names (MATCHES, LIKE, ...)
+    missing = sorted(ops - covered)
+    run.check(not missing, R, key(rel, fi.qualname, "string-only-operators"),
+              "the grammar takes only a string literal after %s, but a Python str given as right-hand side goes through "
+              "make_constant(), which tries a timestamp first: LikeComparisonExpression('file:name', '2020-01-01T00:00:00Z') prints "
+              "`file:name LIKE t'2020-01-01T00:00:00Z'`, which does not parse" % ", ".join(missing), file=rel, line=guesses[0].lineno,
+              function=fi.qualname, expected="isinstance(rhs, str) and operator in %s -> StringConstant(rhs)" % sorted(ops),
+              found=short(guesses[0]))
     run.floor(R, 1)
